@@ -13,15 +13,18 @@ EXTENDS JMES, Json
 CONSTANT File
 Cases == ndJsonDeserialize(File)
 
-VARIABLE i
-Init == i \in 1..Len(Cases)
-Next == UNCHANGED i
+\* one initial state per bucket, one successor per case of the bucket, so that
+\* all TLC workers validate events in parallel
+VARIABLES bucket, i
+NB == 64
+Init == bucket \in 0..(NB - 1) /\ i = 0
+Next == i = 0 /\ \E j \in 1..Len(Cases) : j % NB = bucket /\ i' = j /\ UNCHANGED bucket
 
 Out(c) == IF c.out.t = "err" THEN ErrS(SeqRange(c.out.cs)) ELSE c.out
 Adm(c) == AdmissibleText(c.expr, c.doc)
 Pinned(S) == Cardinality(S) = 1 /\ \A a \in S : ~IsAny(a) /\ (IsErr(a) => Cardinality(a.cs) = 1)
 
-CaseOK ==
+CaseOK == i > 0 =>
   LET c == Cases[i]  S == Adm(c) IN
   IF Admits(S, Out(c))
   THEN PrintT(<<"OKCASE", c.id, IF Pinned(S) THEN "pinned" ELSE "open">>)
